@@ -180,19 +180,20 @@ func clSignSet(c *simkit.Ctx, p *clParty, hash common.Uint256, canonical bool) c
 
 // clWorld is the cluster.
 type clWorld struct {
-	c           *simkit.Ctx
-	A           *world.Chain
-	Sync        []*world.Chain
-	parties     []*clParty
-	eth         []*ethAcct
-	nonce       uint32
-	ts          uint32
-	pendingEth  map[ethcomm.Address]uint64 // EIP-155 transactions generated for the block being built
-	lastMt      *types.MutableTransaction  // unsigned body and signers of the last Ontology-format transaction generated
-	lastSigners []*clParty
-	prepared    bool // a setGlobalParam succeeded
-	repriced    bool // ... and a later createSnapshot activated it
-	strict      bool // only canonical scripts, no Ethereum-type keys in Ontology-format transactions
+	c                *simkit.Ctx
+	A                *world.Chain
+	Sync             []*world.Chain
+	parties          []*clParty
+	eth              []*ethAcct
+	nonce            uint32
+	ts               uint32
+	pendingEth       map[ethcomm.Address]uint64 // EIP-155 transactions generated for the block being built
+	lastMt           *types.MutableTransaction  // unsigned body and signers of the last Ontology-format transaction generated
+	lastSigners      []*clParty
+	prepared         bool // a setGlobalParam succeeded
+	repriced         bool // ... and a later createSnapshot activated it
+	noDeliveryFaults bool // plain delivery only
+	strict           bool // only canonical scripts, no Ethereum-type keys in Ontology-format transactions
 }
 
 type ethAcct struct {
@@ -533,7 +534,63 @@ func (w *clWorld) commitAndSync(txs []*types.Transaction, what string) {
 	c.Must(err, "snap A")
 	for _, b := range w.Sync {
 		dec, root, _ := blockWire(c, blk, resA.MerkleRoot)
-		if err := b.Store.AddBlock(dec, nil, root); err != nil {
+		var err error
+		switch mode := c.Tape.Pick(10, 1, 1); {
+		case mode == 1 && len(txs) > 0 && !w.noDeliveryFaults:
+			// the syncing node dies inside AddBlock, is restarted and gets the block again if it lost it
+			world.Quiesce()
+			b.Disk.ArmCrash(1+c.Tape.Choose(14), c.Tape.Choose(3)*100)
+			err = b.Store.AddBlock(dec, nil, root)
+			if b.Disk.Crashed() {
+				c.Fault("sync_node_crash_in_commit")
+				c.Logf("CRASH of %s inside AddBlock(%d) at %s", b.Name, h, b.Disk.CrashInfo)
+				st := b.Store
+				b.Close()
+				c40CloseAllStores(st)
+				world.Quiesce()
+				b.Disk.Restart()
+				if oerr := b.Open(); oerr != nil {
+					c.Fail("sync-node-reopen-fails", "crash-in-commit", "%s cannot reopen after a crash inside AddBlock(%d): %v", b.Name, h, oerr)
+				}
+				world.Quiesce()
+				err = nil
+				if b.Height() < h {
+					dec2, root2, _ := blockWire(c, blk, resA.MerkleRoot)
+					err = b.Store.AddBlock(dec2, nil, root2)
+				}
+			} else {
+				b.Disk.Disarm()
+			}
+		case mode == 2 && !w.noDeliveryFaults:
+			// the same block reaches the node twice at once (block sync and consensus both deliver
+			// it): the second AddBlock starts while the first is stopped before a disk call
+			world.Quiesce()
+			reached, resume := b.Disk.ArmPause(1 + c.Tape.Choose(12))
+			e1, e2 := make(chan error, 1), make(chan error, 1)
+			go func() { e1 <- b.Store.AddBlock(dec, nil, root) }()
+			world.Quiesce()
+			second := false
+			select {
+			case <-reached:
+				second = true
+				c.Fault("block_delivered_twice_concurrently")
+				dec2, root2, _ := blockWire(c, blk, resA.MerkleRoot)
+				go func() { e2 <- b.Store.AddBlock(dec2, nil, root2) }()
+				world.Quiesce()
+			default:
+			}
+			resume()
+			err = <-e1
+			if second {
+				if err2 := <-e2; err == nil {
+					err = err2
+				}
+			}
+			world.Quiesce()
+		default:
+			err = b.Store.AddBlock(dec, nil, root)
+		}
+		if err != nil {
 			c.FailSoft("sync-node-rejects-block", clDivergenceSig(w, blk), "height %d (%s): node %s cannot add the block A committed: %v", h, what, b.Name, err)
 			return
 		}
